@@ -6,8 +6,31 @@ from model import strip, dstr, const_value, norm_cond, walk
 INF = float('inf')
 
 
-def _eval(d, var, iv):
-    """interval of descriptor d given interval iv of `var`; unknown leaves are (-inf, inf)."""
+def _truth(c, decided):
+    """Truth of condition c given the branch conditions decided on the path ({(key, polarity)}), or None."""
+    atom, pol = norm_cond(None, c)
+    a = strip(atom)
+    if isinstance(a, dict) and a.get('k') == 'bin' and a.get('op') in ('&&', '||'):
+        l, r = _truth(a['l'], decided), _truth(a['r'], decided)
+        absorbing = a['op'] == '||'
+        if l is absorbing or r is absorbing:
+            v = absorbing
+        elif l is not None and r is not None:
+            v = not absorbing
+        else:
+            return None
+        return v if pol else not v
+    k = dstr(atom)
+    if (k, True) in decided:
+        return pol
+    if (k, False) in decided:
+        return not pol
+    return None
+
+
+def _eval(d, var, iv, decided=frozenset()):
+    """interval of descriptor d given interval iv of `var`; unknown leaves are (-inf, inf).  `decided`: the branch
+    conditions the path took (a `c ? a : b` whose c the CFG already branched on is the arm of that branch)."""
     d = strip(d)
     if not isinstance(d, dict):
         return (-INF, INF)
@@ -17,6 +40,8 @@ def _eval(d, var, iv):
     k = d.get('k')
     if k == 'var':
         return iv if d['n'] == var else (-INF, INF)
+    if k == 'cond' and _truth(d['c'], decided) is not None:
+        return _eval(d['t'] if _truth(d['c'], decided) else d['f'], var, iv, decided)
     if k == 'cond':
         t = _eval(d['t'], var, iv)
         f = _eval(d['f'], var, iv)
@@ -79,16 +104,25 @@ def return_intervals(f, var, tag_edge=None, max_paths=4000):
     """For every acyclic entry->return path: (interval of the returned expression, set of tags
     collected from tag_edge(block, idx, edge facts) along the path, block list)."""
     out = []
-    stack = [(f.entry, (-INF, INF), frozenset(), [f.entry])]
+    stack = [(f.entry, (-INF, INF), frozenset(), [f.entry], frozenset())]
     n = 0
     while stack:
-        bid, iv, tags, path = stack.pop()
+        bid, iv, tags, path, decided = stack.pop()
         n += 1
         if n > max_paths:
             raise RuntimeError('too many paths in %s' % f.name)
         b = f.blocks[bid]
         done = False
         for e in b['ev']:
+            # a remembered condition dies with a write to anything it names
+            wn = None
+            if e['k'] == 'decl':
+                wn = e['n']
+            elif e['k'] == 'asg':
+                wl = strip(e['l'])
+                wn = wl.get('n') if isinstance(wl, dict) and wl.get('k') in ('var', 'mem') else ''
+            if wn is not None and decided:
+                decided = frozenset(x for x in decided if wn and wn not in x[0]) if wn else frozenset()
             if e['k'] == 'decl' and e['n'] == var:
                 iv = _eval(e.get('init'), var, iv) if e.get('init') is not None else (-INF, INF)
             elif e['k'] == 'asg' and isinstance(strip(e['l']), dict) and strip(e['l']).get('k') == 'var' and strip(e['l'])['n'] == var:
@@ -101,7 +135,7 @@ def return_intervals(f, var, tag_edge=None, max_paths=4000):
                 else:
                     iv = (-INF, INF)
             elif e['k'] == 'ret':
-                out.append((_eval(e.get('e'), var, iv), tags, path, e))
+                out.append((_eval(e.get('e'), var, iv, decided), tags, path, e))
                 done = True
                 break
         if done:
@@ -117,9 +151,13 @@ def return_intervals(f, var, tag_edge=None, max_paths=4000):
                 if niv is None:
                     continue
             nt = tags
+            efs = f.edge_facts(bid, idx)
             if tag_edge:
-                x = tag_edge(bid, idx, f.edge_facts(bid, idx))
+                x = tag_edge(bid, idx, efs)
                 if x:
                     nt = tags | {x}
-            stack.append((s, niv, nt, path + [s]))
+            # conditions about the tracked variable are carried by its interval (it may be reassigned later); the others
+            # are remembered as decided (the callers' functions do not reassign what they test - checked by `stable`)
+            nd = decided | {(k_, pol_) for k_, pol_, a_ in efs if isinstance(pol_, bool)}
+            stack.append((s, niv, nt, path + [s], nd))
     return out
